@@ -45,3 +45,11 @@ Theorem C11_export_contents : forall s : server,
    ++ bytes_of_le 8 (N.of_nat (length (gPunctured bytes (sv_ggm s))))
    ++ flat_map bitvec_to_bincode (gPunctured bytes (sv_ggm s))).
 Proof. reflexivity. Qed.
+
+(* ... and the server that imports those bytes holds exactly the exporter's retained prefixes, seeds and punctured
+   list - nothing is re-derived on import - so the no-ancestor and unique-cover statements above carry over to the
+   importing instance at every point of a history *)
+From StarV Require Import KeyStateFacts.
+Theorem C11_imported_state : forall (s : server) (rest : bytes), server_okb s = true ->
+  option_map sv_ggm (server_from_bincode (server_to_bincode s ++ rest)) = Some (sv_ggm s).
+Proof. intros s rest H. rewrite (server_roundtrip_b s rest H). reflexivity. Qed.
